@@ -69,6 +69,14 @@ INIT_REFS = {
                         "    self._time_range = TimeRange(to_minute(time_range.start), to_minute(time_range.end))\n",
     "TimeRangesTrigger": "def __init__(self, time_range, do, **kwargs):\n"
                          "    self._time_range = [TimeRange(to_minute(t.start), to_minute(t.end)) for t in time_range]\n",
+    # periodic triggers keep the period(s) and the delay EXACTLY as given (a delay longer than the period is a longer
+    # delay) and start unarmed
+    "PeriodTrigger": "def __init__(self, time_delta, do, trigger_immediately=False, pending=timedelta(minutes=0), **kwargs):\n"
+                     "    self._next_match = None\n    self._delta = time_delta\n"
+                     "    self._trigger_immediately = trigger_immediately\n    self._pending = pending\n",
+    "PeriodsTrigger": "def __init__(self, time_delta, do, trigger_immediately=False, pending=timedelta(minutes=0), **kwargs):\n"
+                      "    self._next_matches = [None for _ in time_delta]\n    self._deltas = time_delta\n"
+                      "    self._trigger_immediately = trigger_immediately\n    self._pending = pending\n",
 }
 
 
@@ -86,7 +94,8 @@ def do_and_init(model, res):
         if init is None:
             raise AnalysisError(f"C18: {cname}.__init__ not found")
         effects_check(res, model, init, ref, f"{cname} stores its specification truncated to the minute", [], opaque=["to_minute"],
-                      rule="R-SHAPE", store_fields=["_time", "_time_range"])
+                      rule="R-SHAPE", store_fields=["_time", "_time_range", "_next_match", "_next_matches", "_delta", "_deltas", "_trigger_immediately",
+                                                    "_pending"])
         n += 1
     return n
 
